@@ -242,7 +242,7 @@ func c25Tamper(name string, weak bool) *explore.Scenario {
 			v := suites[x.Choose("suite", len(suites))]
 			dir := x.Choose("dir", 2)
 			msg := payload([]int{5, 20}[x.Choose("size", 2)], 9)
-			follow := payload(3, 4) // a second, untouched write after the tampered one
+			follow := payload(3, 4)     // a second, untouched write after the tampered one
 			mode := x.Choose("mode", 3) // 0 xor 0x01, 1 xor 0x80, 2 truncate
 			pos := x.Choose("pos", 120)
 			what := fmt.Sprintf("vers=%04x suite=%04x dir=%d size=%d mode=%d pos=%d", v.vers, v.suite, dir, len(msg), mode, pos)
